@@ -345,6 +345,8 @@ def traj_cli(run, case, rng, work):
         argv.append("--save_as_kitti")
     out_dir = os.path.join(work, "out")
     os.makedirs(out_dir)
+    if not case.get("exe") and rng.random() < .15:
+        argv = C01.move_to_config(rng, argv, out_dir, 1 + len(trajs))
     if case.get("exe"):
         # the real executable in a fresh interpreter
         pr = cli.run_subprocess("traj", argv, out_dir, os.environ["HOME"])
@@ -408,7 +410,7 @@ def traj_cli(run, case, rng, work):
     extra = sorted(set(os.listdir(out_dir)) - {st + "." + k for st in list(names) + ([stem(ref[0])] if R is not None else [])
                                                 for k in ("tum", "kitti")})
     # files of the output-only options (plots, tables, log files) are not exports
-    extra = [f for f in extra if not (f.startswith(("plot", "table")) or f == "log.txt")]
+    extra = [f for f in extra if not (f.startswith(("plot", "table")) or f in ("log.txt", "options.json"))]
     run.check(not extra, "no unexpected exports", case, "unexpected files written: %s" % extra,
               key="export:unexpected-files", argv=argv)
 
